@@ -63,7 +63,7 @@ TraceInit ==
     /\ pod = RPods(Trace[i].state) /\ node = RNodes(Trace[i].state)
     /\ job = RJobs(Trace[i].state) /\ queue = RQueues(Trace[i].state)
     /\ ops = <<>> /\ emitted = <<>> /\ plan = <<>> /\ phase = "open" /\ ci = 0 /\ conv = FALSE
-    /\ nfail = 0 /\ nstmt = 1 /\ saved = <<>> /\ hist = <<>>
+    /\ nfail = 0 /\ nstmt = 1 /\ bad = FALSE /\ saved = <<>> /\ hist = <<>>
     /\ act = Lbl("Init", "", "", FALSE, <<>>, 0, "", TRUE)
     /\ cps = [x \in {0} |-> i]
     /\ rbOK = TRUE /\ dcOK = TRUE /\ pli = 0 /\ rem = <<>> /\ rdone = TRUE
@@ -73,7 +73,7 @@ Ev == Trace[l]
 Here(kind) == l <= Len(Trace) /\ Trace[l].ev = kind
 
 SetS(S) == pod' = S.pod /\ node' = S.node /\ job' = S.job /\ queue' = S.queue /\ ops' = S.ops
-Keep == UNCHANGED <<cfg, nfail, nstmt, saved, hist, l0>>
+Keep == UNCHANGED <<cfg, nfail, nstmt, bad, saved, hist, l0>>
 
 TraceCall ==
   /\ Here("Call")
